@@ -29,6 +29,7 @@ import (
 	"bytes"
 	"context"
 	"encoding/json"
+	"errors"
 	"fmt"
 	"math/rand"
 	"net/http"
@@ -480,6 +481,26 @@ func (s *zzG03Sys) clientEngine(name string) (ss *Default) {
 	return ss
 }
 
+// zzG03Outside returns the keys that are not in bound.
+func zzG03Outside(keys []zzG03Mem, bound []zzG03Mem) (out []zzG03Mem) {
+	for _, k := range keys {
+		found := false
+		for _, b := range bound {
+			if b.N == k.N && b.Q == k.Q {
+				found = true
+
+				break
+			}
+		}
+
+		if !found {
+			out = append(out, k)
+		}
+	}
+
+	return out
+}
+
 func zzG03Subset(live []zzG03Mem, bound []zzG03Mem) (extra []zzG03Mem) {
 	for _, l := range live {
 		found := false
@@ -681,19 +702,22 @@ type zzG03Walker struct {
 	hist   []*zzG03Step
 	nLive  int
 	nEqual int
+	nCmp   int
+	noMem  bool
 }
 
 func (k *zzG03Walker) randOthers() (m map[string]bool) {
+	// Mostly off: the engines of the large services take long to build.
 	m = map[string]bool{}
-	mode := k.rng.Intn(3)
+	mode := k.rng.Intn(40)
 	for _, s := range zzG03AllSvcs {
 		switch mode {
 		case 0:
-			m[s] = false
-		case 1:
 			m[s] = true
-		default:
+		case 1:
 			m[s] = k.rng.Intn(2) == 0
+		default:
+			m[s] = false
 		}
 	}
 
@@ -708,7 +732,19 @@ func (k *zzG03Walker) clientConc(c zzG03Client) (cc []zzG03ClientConc) {
 	return []zzG03ClientConc{{name: "kid", own: c.Own, filt: k.filtC, conf: zzG03Conc(c.Conf, k.hdr.Svcs, k.othC)}}
 }
 
-// bootAt starts a fresh server whose configuration file says st.
+// zzG03EstablishError says that the specification's state could not be
+// established on a fresh server: a question the specification remembers as
+// rewritten is not rewritten when asked.
+type zzG03EstablishError struct{ what string }
+
+func (e *zzG03EstablishError) Error() (msg string) { return e.what }
+
+// bootAt starts a fresh server in the specification state st: its
+// configuration file says st.G / st.Cl, and what st says the engines may
+// remember is really established, with the right ages, by asking the
+// remembered questions and letting the clock tick (oldest first).  Entries can
+// be remembered while the master switch is off only after the deprecated
+// disable call, so the server is started enabled and disabled afterwards.
 func (k *zzG03Walker) bootAt(st zzG03State) (err error) {
 	if k.sys != nil {
 		k.sys.close()
@@ -716,10 +752,63 @@ func (k *zzG03Walker) bootAt(st zzG03State) (err error) {
 
 	k.othG, k.othC = k.randOthers(), k.randOthers()
 	k.filtG, k.filtC = k.rng.Intn(4) != 0, k.rng.Intn(2) == 0
-	k.sys, err = zzG03Boot(time.Duration(k.hdr.TTL)*time.Second, zzG03Conc(st.G, k.hdr.Svcs, k.othG), k.filtG, k.clientConc(st.Cl))
+	g := st.G
+	if len(st.Gc) > 0 {
+		g.En = true
+	}
+
+	k.sys, err = zzG03Boot(time.Duration(k.hdr.TTL)*time.Second, zzG03Conc(g, k.hdr.Svcs, k.othG), k.filtG, k.clientConc(st.Cl))
+	if err != nil {
+		return err
+	}
+
+	spell := map[string]string{}
+	for _, n := range k.hdr.Names {
+		spell[n.LC] = n.Q
+	}
+
+	for age := k.hdr.TTL - 1; age >= 0; age-- {
+		for _, m := range st.Gc {
+			if m.Age == age {
+				if v := k.sys.query("other", true, spell[m.N], m.Q); v.K == "pass" {
+					return &zzG03EstablishError{fmt.Sprintf("on a server started with %+v: %s %s from a stranger is not rewritten, the specification says it is", st.G, spell[m.N], m.Q)}
+				}
+			}
+		}
+
+		for _, m := range st.Cc {
+			if m.Age == age {
+				if v := k.sys.query("client", true, spell[m.N], m.Q); v.K == "pass" {
+					return &zzG03EstablishError{fmt.Sprintf("on a server started with %+v and client %+v: %s %s from the client is not rewritten, the specification says it is", st.G, st.Cl, spell[m.N], m.Q)}
+				}
+			}
+		}
+
+		if age > 0 {
+			time.Sleep(time.Second)
+		}
+	}
+
+	if g.En != st.G.En {
+		if r := k.sys.legacy(false); r != "ok" {
+			return fmt.Errorf("establishing: disable: %s", r)
+		}
+	}
+
 	k.sync = st
-	k.sync.Gc, k.sync.Cc = nil, nil
 	k.hist = nil
+	k.noMem = false
+
+	return nil
+}
+
+// bootNear is the fallback when st cannot be established: the settings of st
+// without what it remembers; the memory comparison is suspended until the next
+// restart.
+func (k *zzG03Walker) bootNear(st zzG03State) (err error) {
+	st.Gc, st.Cc = nil, nil
+	err = k.bootAt(st)
+	k.noMem = true
 
 	return err
 }
@@ -797,18 +886,29 @@ func (k *zzG03Walker) compare(s *zzG03Step, reply zzG03Verdict) (what string) {
 		return fmt.Sprintf("client record %+v, the specification says %+v", cl, s.D.Cl)
 	}
 
-	gl, cll := zzG03Live(k.sys.glob, k.keys), zzG03Live(k.sys.clientEngine("kid"), k.keys)
-	if extra := zzG03Subset(gl, s.D.Gc); len(extra) > 0 {
-		return fmt.Sprintf("the global engine still remembers %v, the specification bounds its memory by %v", extra, s.D.Gc)
+	if k.noMem {
+		return ""
 	}
 
-	if extra := zzG03Subset(cll, s.D.Cc); len(extra) > 0 {
-		return fmt.Sprintf("the client's engine still remembers %v, the specification bounds its memory by %v", extra, s.D.Cc)
+	// Every key the specification does not allow to be remembered is probed
+	// after every step; the allowed ones (for the vacuity statistics: does the
+	// engine remember anything at all) every eighth step.
+	gl, cll := zzG03Live(k.sys.glob, zzG03Outside(k.keys, s.D.Gc)), zzG03Live(k.sys.clientEngine("kid"), zzG03Outside(k.keys, s.D.Cc))
+	if len(gl) > 0 {
+		return fmt.Sprintf("the global engine still remembers %v, the specification bounds its memory by %v", gl, s.D.Gc)
 	}
 
-	k.nLive += len(gl) + len(cll)
-	if len(gl) == len(s.D.Gc) && len(cll) == len(s.D.Cc) {
-		k.nEqual++
+	if len(cll) > 0 {
+		return fmt.Sprintf("the client's engine still remembers %v, the specification bounds its memory by %v", cll, s.D.Cc)
+	}
+
+	k.nCmp++
+	if k.nCmp%8 == 0 {
+		in := len(zzG03Live(k.sys.glob, s.D.Gc)) + len(zzG03Live(k.sys.clientEngine("kid"), s.D.Cc))
+		k.nLive += in
+		if in == len(s.D.Gc)+len(s.D.Cc) {
+			k.nEqual++
+		}
 	}
 
 	return ""
@@ -869,7 +969,17 @@ func TestZZVerifG03Walk(t *testing.T) {
 		}
 
 		if err := k.bootAt(hdr.Init); err != nil {
-			t.Fatalf("boot: %v", err)
+			var est *zzG03EstablishError
+			if !errors.As(err, &est) {
+				t.Fatalf("boot: %v", err)
+			}
+
+			bad++
+			w.put(map[string]any{"kind": "bad", "leg": "walk", "cfg": hdr.Cfg, "step": 0, "edge": -1, "boot": hdr.Init, "history": []string{"start the server in this state"},
+				"steps": []*zzG03Step{}, "what": est.Error(), "got": zzG03Verdict{K: "pass"}, "want": "rewritten", "dst": hdr.Init, "names": hdr.Names, "svcs": hdr.Svcs, "ttl": hdr.TTL})
+			if err = k.bootNear(hdr.Init); err != nil {
+				t.Fatalf("boot: %v", err)
+			}
 		}
 
 		for _, s := range steps {
@@ -886,7 +996,7 @@ func TestZZVerifG03Walk(t *testing.T) {
 				if s.A == "restart" {
 					// A restart is a synchronisation point: the state is the
 					// persisted one, the engines are new.
-					k.sync, k.hist = s.D, nil
+					k.sync, k.hist, k.noMem = s.D, nil, false
 				}
 
 				continue
@@ -896,7 +1006,12 @@ func TestZZVerifG03Walk(t *testing.T) {
 			hist, sync := k.hist, k.sync
 			r := &zzG03Walker{hdr: hdr, rng: rand.New(rand.NewSource(zzSeed() + int64(nSteps))), keys: k.keys}
 			what2 := ""
-			if err = r.bootAt(sync); err != nil {
+			var est *zzG03EstablishError
+			if err = r.bootAt(sync); errors.As(err, &est) {
+				// Cannot happen for a state this walk was in; do not report
+				// what cannot be reproduced.
+				hist = nil
+			} else if err != nil {
 				t.Fatalf("boot: %v", err)
 			}
 
@@ -915,7 +1030,9 @@ func TestZZVerifG03Walk(t *testing.T) {
 					break
 				}
 			}
-			r.sys.close()
+			if r.sys != nil {
+				r.sys.close()
+			}
 
 			descr := make([]string, len(hist))
 			for i, h := range hist {
@@ -936,7 +1053,15 @@ func TestZZVerifG03Walk(t *testing.T) {
 
 			// Continue from the specification's state.
 			resyncs++
-			if err = k.bootAt(s.D); err != nil {
+			if err = k.bootAt(s.D); errors.As(err, &est) {
+				// Establishing the state is itself a fresh, minimal history
+				// that disagrees with the specification.
+				bad++
+				w.put(map[string]any{"kind": "bad", "leg": "walk", "cfg": hdr.Cfg, "step": nSteps, "edge": s.I, "boot": s.D, "history": []string{"start the server in this state"},
+					"steps": []*zzG03Step{}, "what": est.Error(), "got": zzG03Verdict{K: "pass"}, "want": s.O, "dst": s.D, "names": hdr.Names, "svcs": hdr.Svcs, "ttl": hdr.TTL})
+				err = k.bootNear(s.D)
+			}
+			if err != nil {
 				t.Fatalf("boot: %v", err)
 			}
 		}
@@ -945,7 +1070,7 @@ func TestZZVerifG03Walk(t *testing.T) {
 	})
 
 	w.put(map[string]any{"kind": "summary", "leg": "walk", "cfg": hdr.Cfg, "steps": nSteps, "bad": bad, "flaky": flaky, "resyncs": resyncs,
-		"by_action": byAct, "live_entries_seen": k.nLive, "steps_memory_equal": k.nEqual})
+		"by_action": byAct, "live_entries_seen": k.nLive, "steps_memory_equal": k.nEqual, "memory_samples": k.nCmp / 8})
 }
 
 // ---------------------------------------------------------------- direction B
